@@ -6,8 +6,8 @@ from ..netmc import Scenario, HttpOrigin, CloseOnAccept
 
 PROP = 'C12'
 URLS = [b'http://u1.test', b'http://u1.test:8080', b'http://u1.test/p', b'http://u2.test:81/p/q?x=1',
-        b'https://u3.test', b'https://u3.test:8443/p']
-DNS = {'u1.test': '10.0.2.1', 'u2.test': '10.0.2.2', 'u3.test': '10.0.2.3'}
+        b'https://u3.test', b'https://u3.test:8443/p', b'http://[::1]:9000/v6']
+DNS = {'u1.test': '10.0.2.1', 'u2.test': '10.0.2.2', 'u3.test': '10.0.2.3', '::1': '::1'}
 LITERAL = b'HTTP/1.1 200 OK\r\nContent-Length: 7\r\n\r\nliteral'
 BIGBODY = bytes((i * 7 + i // 251) % 256 for i in range(100000))
 
@@ -21,7 +21,8 @@ def stamp(oid):
 
 def origins():
     o = {}
-    for ip, port, oid in (('10.0.2.1', 80, b'u1:80'), ('10.0.2.1', 8080, b'u1:8080'), ('10.0.2.2', 81, b'u2:81')):
+    for ip, port, oid in (('10.0.2.1', 80, b'u1:80'), ('10.0.2.1', 8080, b'u1:8080'), ('10.0.2.2', 81, b'u2:81'),
+                          ('::1', 9000, b'v6:9000')):
         o[(ip, port)] = (lambda oid=oid: HttpOrigin([], respond=stamp(oid)))
     for port in (443, 8443):
         o[('10.0.2.3', port)] = (lambda: CloseOnAccept())
@@ -157,7 +158,7 @@ def url_facts(u):
     s = urlsplit(u.decode())
     port = s.port or (443 if s.scheme == 'https' else 80)
     path = (s.path or '/') + ('?' + s.query if s.query else '')
-    authority = s.hostname + (':%d' % s.port if s.port else '')
+    authority = ('[%s]' % s.hostname if ':' in s.hostname else s.hostname) + (':%d' % s.port if s.port else '')
     return s.scheme, s.hostname, port, path.encode(), authority.encode()
 
 
@@ -280,7 +281,7 @@ def check(w):
 
 def run(tier):
     return netcheck.run(PROP, tier, scenarios(tier), check, 1, None, det_every=17,
-                        rule='route tables (static routes with 1..2 upstream URLs from a 6-URL alphabet, overlapping / disjoint '
+                        rule='route tables (static routes with 1..2 upstream URLs from a 7-URL alphabet (names, ports, paths, https, an IPv6 literal), overlapping / disjoint '
                              'pairs, dynamic routes returning a Url or a literal response) x 11 request paths x request kinds x '
                              'Host-rewrite off/on; every outcome of random.choice is branched (kind D)')
 
